@@ -57,6 +57,10 @@ pub struct StepInfo {
     pub notes: Vec<N<Id>>,
     /// (destination, message kind) of every datagram sent in this step
     pub sent: Vec<(Id, &'static str)>,
+    /// the datagrams themselves (only when Sim::keep_sent is set)
+    pub sent_bytes: Vec<(Id, Vec<u8>)>,
+    /// identity of the acting node before the call
+    pub identity_before: Id,
 }
 
 pub struct Sim {
@@ -84,6 +88,7 @@ pub struct Sim {
     pub kind_counts: BTreeMap<&'static str, u64>,
     pub lost_to_faults: u64,
     pub undeliverable: u64,
+    pub keep_sent: bool,
 }
 
 impl Sim {
@@ -108,6 +113,7 @@ impl Sim {
             kind_counts: BTreeMap::new(),
             lost_to_faults: 0,
             undeliverable: 0,
+            keep_sent: false,
         }
     }
 
@@ -159,6 +165,7 @@ impl Sim {
         self.steps += 1;
         let step = self.steps;
         let call_kind = call.kind();
+        let identity_before = *self.nodes[node].inst.foca.identity();
         let (res, evs, _hook, _h) = self.nodes[node].inst.raw_call(&call);
         let mut info = StepInfo {
             t: self.now,
@@ -183,6 +190,8 @@ impl Sim {
             },
             notes: Vec::new(),
             sent: Vec::new(),
+            sent_bytes: Vec::new(),
+            identity_before,
         };
         for e in evs {
             match e {
@@ -199,6 +208,9 @@ impl Sim {
                     let kind = wire::parse(&bytes, self.codec).map(|d| wire::kind_name(&d.header.message)).unwrap_or("unparseable");
                     *self.kind_counts.entry(kind).or_insert(0) += 1;
                     info.sent.push((to, kind));
+                    if self.keep_sent {
+                        info.sent_bytes.push((to, bytes.clone()));
+                    }
                     let index = self.sent_count;
                     self.sent_count += 1;
                     // faults
